@@ -114,8 +114,9 @@ structure Cst (α : Type) where
   degree : List α
   eps : α
 
-/-- the body of the `while` loop for dimension `d`: the new `coord[d]` and the new `dotprod`. -/
-def iterBody (c : Cst α) (maxSpan : List α) (coord : List (List α)) (d : Nat) : Except Err (List α × α) := do
+/-- the body of the `while` loop for dimension `d`: the new `coord[d]`, the new `dotprod`, and (ghost, for the
+    statement of the post-condition only) the vector that was handed to `normalize`. -/
+def iterBody (c : Cst α) (maxSpan : List α) (coord : List (List α)) (d : Nat) : Except Err (List α × α × List α) := do
   let cd ← orthogonalize coord c.floatMass d c.fixed
   let tmp ← calculateCentroids c.adj cd c.degree
   let idx := List.range c.adj.length
@@ -125,23 +126,24 @@ def iterBody (c : Cst α) (maxSpan : List α) (coord : List (List α)) (d : Nat)
   let new := if mx - mn < c.eps then idx.map fun i => half * (vat new i + vat cd i) else new
   let new' ← normalize new maxSpan c.fixed
   let dp ← absNormDot cd new' c.floatMass
-  pure (new', dp)
+  pure (new', dp, new)
 
-/-- the `while` loop for dimension `d`; `fuel` = iterations still allowed (`10000 - num_iter`). -/
+/-- the `while` loop for dimension `d`; `fuel` = iterations still allowed (`10000 - num_iter`);
+    `pre` (ghost) = the argument of the last `normalize` call that wrote `coord[d]`. -/
 def dimLoop (c : Cst α) (maxSpan : List α) (d : Nat) :
-    Nat → List (List α) → α → Nat → Except Err (List (List α) × Nat)
-  | 0, coord, _, it => .ok (coord, it)
-  | fuel + 1, coord, dp, it =>
+    Nat → List (List α) → α → Nat → List α → Except Err (List (List α) × Nat × List α)
+  | 0, coord, _, it, pre => .ok (coord, it, pre)
+  | fuel + 1, coord, dp, it, pre =>
     if dp < one - c.eps ∨ one + c.eps < dp then do
       let r ← iterBody c maxSpan coord d
-      dimLoop c maxSpan d fuel (coord.set d r.1) r.2 (it + 1)
-    else .ok (coord, it)
+      dimLoop c maxSpan d fuel (coord.set d r.1) r.2.1 (it + 1) r.2.2
+    else .ok (coord, it, pre)
 
 /-- lines 56–82 for one dimension: the initial `normalize`, then the loop. -/
 def processDim (c : Cst α) (maxSpan : List α) (maxIter : Nat) (coord : List (List α)) (d : Nat) :
-    Except Err (List (List α) × Nat) := do
+    Except Err (List (List α) × Nat × List α) := do
   let x ← normalize (coord.getD d []) maxSpan c.fixed
-  dimLoop c maxSpan d maxIter (coord.set d x) zero 0
+  dimLoop c maxSpan d maxIter (coord.set d x) zero 0 (coord.getD d [])
 
 /-- lines 46–51 for one row: unknown (negative) coordinates are drawn, everything is shifted by `size/2`. -/
 def initRow (size : α) (fixed : List Bool) : List α → Nat → List α → Except Err (List α × List α)
@@ -173,6 +175,9 @@ structure DieResult (α : Type) where
   wl : α
   iters : List Nat
   draws : List α
+  /-- ghost: the vectors handed to the LAST `normalize` call of the x and of the y dimension. -/
+  preX : List α
+  preY : List α
 
 /-- `radius[i]`. -/
 def radii (o : Ops α) (mass : List α) : List α := mass.map fun m => o.sqrt (m / o.pi)
@@ -197,7 +202,8 @@ def spectralLayoutDie (o : Ops α) (adj : List (List (Edge α))) (mass : List α
   let p1 ← processDim c spanX maxIter coord 1
   let p2 ← processDim c spanY maxIter p1.1 2
   let fin := [p2.1.getD 1 [], p2.1.getD 2 []]
-  pure { xs := p2.1.getD 1 [], ys := p2.1.getD 2 [], wl := wirelength adj fin, iters := [p1.2, p2.2], draws := r2.2 }
+  pure { xs := p2.1.getD 1 [], ys := p2.1.getD 2 [], wl := wirelength adj fin, iters := [p1.2.1, p2.2.1], draws := r2.2,
+         preX := p1.2.2, preY := p2.2.2 }
 
 /-! ### `spectral.py`: graph construction, best-of-n, hard modules -/
 
@@ -279,9 +285,10 @@ def layoutGuards {β : Type} (mods : List (SMod α β)) (nfloorplans : Nat) : Bo
   !(mods.any fun m => m.fixed && m.center.isNone) && decide (2 < mods.length) &&
     !(decide (nfloorplans = 0) && mods.any fun m => m.center.isNone)
 
-/-- `Spectral(netlist).spectral_layout(Shape(W, H), nfloorplans, False)`. -/
-def spectralLayout (o : Ops α) {β : Type} (mods : List (SMod α β)) (nets : List (SNet α)) (W H : α)
-    (nfloorplans : Nat) (draws : List α) (maxIter : Nat := 10000) : Except Err (List (SMod α β)) := do
+/-- `Spectral(netlist).spectral_layout(Shape(W, H), nfloorplans, False)`, returning next to the modules the
+    record of the winning trial (ghost: the Python keeps only its coordinates). -/
+def spectralLayoutTrace (o : Ops α) {β : Type} (mods : List (SMod α β)) (nets : List (SNet α)) (W H : α)
+    (nfloorplans : Nat) (draws : List α) (maxIter : Nat := 10000) : Except Err (List (SMod α β) × DieResult α) := do
   let adj ← buildAdj mods.length nets
   if layoutGuards mods nfloorplans then
     let best ← runTrials o adj (mods.map (·.mass)) W H (initCentres mods nfloorplans false)
@@ -289,7 +296,15 @@ def spectralLayout (o : Ops α) {β : Type} (mods : List (SMod α β)) (nets : L
       (if nfloorplans = 0 then 1 else nfloorplans) draws none
     match best with
     | none => .error .assertion
-    | some b => finishAll b.xs b.ys W H mods 0
+    | some b => do
+      let out ← finishAll b.xs b.ys W H mods 0
+      pure (out, b)
   else .error .assertion
+
+/-- `Spectral(netlist).spectral_layout(Shape(W, H), nfloorplans, False)`: the modules afterwards. -/
+def spectralLayout (o : Ops α) {β : Type} (mods : List (SMod α β)) (nets : List (SNet α)) (W H : α)
+    (nfloorplans : Nat) (draws : List α) (maxIter : Nat := 10000) : Except Err (List (SMod α β)) := do
+  let r ← spectralLayoutTrace o mods nets W H nfloorplans draws maxIter
+  pure r.1
 
 end FV.Spectral
